@@ -73,6 +73,10 @@ def decomposeCompositeGlyph(
         decomposeNested=decomposeNested,
     )
     for component in list(glyph.components):
+        # take the component out first: the pen may put it straight back (when only
+        # some components get decomposed), and defcon refuses to have two components
+        # with the same identifier in a glyph, even for a moment
+        glyph.removeComponent(component)
         try:
             component.drawPoints(pen)
         except pen.MissingComponentError:
@@ -84,7 +88,6 @@ def decomposeCompositeGlyph(
                 )
             else:
                 raise
-        glyph.removeComponent(component)
 
 
 class _GlyphSet(dict):
